@@ -205,7 +205,7 @@ type patVec struct {
 	Acc []patEntry `json:"acc"`
 }
 
-var patLimits = [][2]int{{65535, 65535}, {1, 65535}, {65535, 1}}
+var patLimits = [][2]int{{65535, 65535}, {1, 65535}, {65535, 1}, {0, 65535}, {65535, 0}} // a limit of zero is a limit
 
 func routerWithLimits(l [2]int) *fox.Router {
 	var opts []fox.GlobalOption
@@ -274,17 +274,25 @@ func substitute(pat string, vals []string) string {
 	return sb.String()
 }
 
+func tlaLimits(ls [][2]int) string {
+	var parts []string
+	for _, l := range ls {
+		parts = append(parts, fmt.Sprintf("<<%d, %d>>", l[0], l[1]))
+	}
+	return "<< " + strings.Join(parts, ", ") + " >>"
+}
+
 func checkC10(r *Run) {
 	pre, suf := pick(r, 3, 4), pick(r, 3, 4)
 	gen := fmt.Sprintf(`---- MODULE Gen_Pattern ----
 GenAlphabet == %s
 GenPrefixLen == %d
 GenSuffixLen == %d
-GenLimits == << <<65535, 65535>>, <<1, 65535>>, <<65535, 1>> >>
+GenLimits == %s
 GenParamValues == { <<"a">>, <<"a","b">> }
 GenCatchValues == { <<"a","/","b">> }
 ====
-`, tlaCharSet(patternAlphabet), pre, suf)
+`, tlaCharSet(patternAlphabet), pre, suf, tlaLimits(patLimits))
 	var strs, accepted, insts atomic.Int64
 	handle := func(v patVec) {
 		acc := map[string]patEntry{}
